@@ -232,7 +232,38 @@ fn followups(p: u64) -> Vec<Action> {
     vec![tx(vec![OpSpec::put(&["a"], "a00", "v*8"), OpSpec::bucket("create", &[], "fresh")]), tx(reuse), tx(vec![OpSpec::del(&["a"], "new1"), OpSpec::del(&["a", "b"], "b01"), OpSpec::put(&["fresh"], "k", "v*8")]), Action::Reopen, tx(vec![OpSpec::put(&["fresh"], "k2", &third)])]
 }
 
+/// collects what `check_golden_inner` finds inside the forked copy
+struct Coll(Vec<(String, String)>);
+
+impl Coll {
+    fn violation(&mut self, class: &str, detail: &str, _replay: impl FnOnce() -> Value) {
+        self.0.push((class.to_string(), detail.to_string()));
+    }
+}
+
+/// One golden variant, in a forked copy of the check (a change that corrupts memory while reading
+/// or continuing an old file must end the copy, not the check).
 fn check_golden(check: &mut Check, g: &Golden, variant: &str, bytes: &[u8], expect: &BucketM, path: &str, counts: &mut (u64, u64)) {
+    let res = crate::isolate::run_in_child(300, || {
+        let mut c = Coll(vec![]);
+        let mut cnt = (0u64, 0u64);
+        check_golden_inner(&mut c, g, variant, bytes, expect, path, &mut cnt);
+        json!({"v": c.0.iter().map(|(a, b)| json!([a, b])).collect::<Vec<_>>(), "opened": cnt.0, "followups": cnt.1}).to_string()
+    });
+    match res {
+        Ok(out) => {
+            let v: Value = serde_json::from_str(&out).unwrap_or(Value::Null);
+            counts.0 += v["opened"].as_u64().unwrap_or(0);
+            counts.1 += v["followups"].as_u64().unwrap_or(0);
+            for x in v["v"].as_array().cloned().unwrap_or_default() {
+                check.violation(x[0].as_str().unwrap_or("golden"), x[1].as_str().unwrap_or(""), || json!({"engine": "compatx", "golden": g.pagesize, "variant": variant}));
+            }
+        }
+        Err(e) => check.violation("golden_process_death", &format!("[golden {} {}] the process opening and continuing this file {}", g.stem, variant, e), || json!({"engine": "compatx", "golden": g.pagesize, "variant": variant})),
+    }
+}
+
+fn check_golden_inner(check: &mut Coll, g: &Golden, variant: &str, bytes: &[u8], expect: &BucketM, path: &str, counts: &mut (u64, u64)) {
     write_file(path, bytes, g.file_len);
     let cfg = Cfg { pagesize: g.pagesize, num_pages: 32, ..Cfg::default() };
     counts.0 += 1;
